@@ -92,6 +92,7 @@ fn sop(focus: Focus) -> BoxedStrategy<SOp> {
                 .boxed(),
         ),
         (w_page / 2, (g.clone(), 0u8..6).prop_map(|(g, needle)| SOp::TagSearch { g, needle }).boxed()),
+        (2, Just(SOp::Reopen).boxed()),
     ];
     v.retain(|(w, _)| *w > 0);
     proptest::strategy::Union::new_weighted(v).boxed()
@@ -238,7 +239,7 @@ fn check_pages<S: MdkStorageProvider>(s: &S, name: &str, g: u8) -> Result<u64, F
 pub fn exec(case: &StoreCase, mode: Mode, focus: Focus) -> Result<CaseReport, Failure> {
     let dir = scratch_dir("s");
     let mem = MdkMemoryStorage::default();
-    let sql = MdkSqliteStorage::new_unencrypted(dir.0.join("store.db"))
+    let mut sql = MdkSqliteStorage::new_unencrypted(dir.0.join("store.db"))
         .map_err(|e| Failure::new("setup-failed", format!("open sqlite: {e}")))?;
     let mut model = Model::default();
     let now_far = nostr::Timestamp::now().as_secs() + 100_000;
@@ -310,6 +311,17 @@ pub fn exec(case: &StoreCase, mode: Mode, focus: Focus) -> Result<CaseReport, Fa
             }
         }
 
+        if matches!(op, SOp::Reopen) {
+            // close the connection (the handle is replaced by one on another file and dropped),
+            // then open the real file again
+            let placeholder = MdkSqliteStorage::new_unencrypted(dir.0.join("placeholder.db"))
+                .map_err(|e| Failure::new("setup-failed", format!("open placeholder: {e}")))?;
+            drop(std::mem::replace(&mut sql, placeholder));
+            sql = MdkSqliteStorage::new_unencrypted(dir.0.join("store.db"))
+                .map_err(|e| Failure::new("database-does-not-reopen", format!("step {i}: {e}")))?;
+            *counters.entry("sqlite-reopened".into()).or_insert(0) += 1;
+            classes.insert("sqlite-reopened-mid-sequence");
+        }
         let rm = model.apply(op);
         let ra = std::panic::catch_unwind(std::panic::AssertUnwindSafe(|| apply_real(&mem, op, now_far)));
         let rb = std::panic::catch_unwind(std::panic::AssertUnwindSafe(|| apply_real(&sql, op, now_far)));
